@@ -1,0 +1,55 @@
+// Copyright 2019 The Scriggo Authors. All rights reserved.
+// Use of this source code is governed by a BSD-style
+// license that can be found in the LICENSE file.
+
+//go:build verif
+
+// Contracts for the deductive verifier in /verif (govc). This file is compiled
+// only with the "verif" build tag. The //@ comment blocks are the contracts;
+// the Go functions are executable specification functions used by them.
+
+package runtime
+
+// ---- specification helpers (interpreted by govc) ----
+
+func old[T any](x T) T   { return x }
+func imp(a, b bool) bool { return !a || b }
+func forall(lo, hi int, p func(int) bool) bool {
+	for k := lo; k < hi; k++ {
+		if !p(k) {
+			return false
+		}
+	}
+	return true
+}
+func exists(lo, hi int, p func(int) bool) bool {
+	for k := lo; k < hi; k++ {
+		if p(k) {
+			return true
+		}
+	}
+	return false
+}
+
+// ---- spec functions ----
+
+func specIsHexDigit(c byte) bool {
+	return '0' <= c && c <= '9' || 'a' <= c && c <= 'f' || 'A' <= c && c <= 'F'
+}
+
+// CSS Syntax Level 3, section 4.3.7 "consume an escaped code point": up to six
+// hex digits are consumed, then one whitespace code point (newline, tab, space;
+// form feed and carriage return are newlines after preprocessing) is swallowed.
+func specCSSWhitespace(c byte) bool {
+	return c == '\t' || c == '\n' || c == '\f' || c == '\r' || c == ' '
+}
+
+//@ func prefixWithSpace
+//@   props C07 C06
+//@   ensures (specIsHexDigit(c) || specCSSWhitespace(c)) ==> result
+
+//@ func htmlEscape
+//@   props C05 C13 C07
+//@   loop 0
+//@     invariant 0 <= last && last <= i && i <= len(s)
+//@     decreases len(s) - i
